@@ -24,6 +24,7 @@ import (
 	"fmt"
 	"io"
 	"net/http"
+	"net/url"
 	"strconv"
 	"strings"
 	"time"
@@ -641,6 +642,8 @@ func (s *S3Proxy) UploadPartCopy(ctx context.Context, input *s3.UploadPartCopyIn
 		input.SSECustomerKeyMD5 = nil
 	}
 
+	input.CopySource = encodeCopySource(input.CopySource)
+
 	output, err := s.client.UploadPartCopy(ctx, input)
 	if err != nil {
 		return s3response.CopyPartResult{}, handleError(err)
@@ -1084,7 +1087,7 @@ func (s *S3Proxy) CopyObject(ctx context.Context, input s3response.CopyObjectInp
 		&s3.CopyObjectInput{
 			Metadata:                       input.Metadata,
 			Bucket:                         input.Bucket,
-			CopySource:                     input.CopySource,
+			CopySource:                     encodeCopySource(input.CopySource),
 			Key:                            input.Key,
 			CacheControl:                   input.CacheControl,
 			ContentDisposition:             input.ContentDisposition,
@@ -1125,6 +1128,26 @@ func (s *S3Proxy) CopyObject(ctx context.Context, input s3response.CopyObjectInp
 			TaggingDirective:               input.TaggingDirective,
 		})
 	return out, handleError(err)
+}
+
+// encodeCopySource url-encodes a copy source ("bucket/key[?versionId=id]")
+// for the x-amz-copy-source header: the gateway hands the decoded value to
+// the backend, the sdk sends the value as it is, and the endpoint decodes
+// it once more.
+func encodeCopySource(src *string) *string {
+	if src == nil {
+		return nil
+	}
+	path, versionId, hasVersion := strings.Cut(*src, "?versionId=")
+	segments := strings.Split(path, "/")
+	for i, seg := range segments {
+		segments[i] = strings.ReplaceAll(url.QueryEscape(seg), "+", "%20")
+	}
+	res := strings.Join(segments, "/")
+	if hasVersion {
+		res += "?versionId=" + versionId
+	}
+	return &res
 }
 
 func (s *S3Proxy) ListObjects(ctx context.Context, input *s3.ListObjectsInput) (s3response.ListObjectsResult, error) {
